@@ -30,7 +30,7 @@ IPRINTS = (-1, 0, 1, 7, 99, 100, 101, 1000)
 def floors(tier):
     return {"results_compared_with_fresh_baseline": 400, "schedules": 150, "context_switches": 800, "enumerated_schedules": 100,
             "line_level_schedules": 20, "line_events": 20000, "nested_runs": 15, "frozen_cases": 15, "iprint_runs": 100,
-            "double_restarts": 20, "double_restarts_with_in_place_update_function": 5, "hostile_user_runs": 20, "objective_switch_cases_in_which_the_filter_dropped_a_pair": 1, "__nontrivial__": 150}
+            "double_restarts": 20, "runs_with_data_forwarded_through_args_compared_with_closures": 150, "double_restarts_with_in_place_update_function": 5, "hostile_user_runs": 20, "objective_switch_cases_in_which_the_filter_dropped_a_pair": 1, "__nontrivial__": 150}
 
 
 def exhaustive(tier):
@@ -102,6 +102,8 @@ def cases(tier, seed):
                "seeds": [int(s) for s in rng.integers(0, 2**31 - 1, 4 if q else 12)], "p": float(gen.pick(rng, [0.002, 0.01, 0.05]))}
     for i in range(48 if q else 1500):
         yield {"kind": "hostile", "problem": prob(6), "cfg": dict(small_cfg(rng), cb="never", maxiter=int(rng.integers(3, 15)))}
+    for i in range(40 if q else 1500):
+        yield {"kind": "args", "seed": int(rng.integers(0, 2**31 - 1))}
     for i in range(24 if q else 500):
         pa = prob(4)
         yield {"kind": "nested", "a": {"problem": pa, "cfg": small_cfg(rng)}, "b": {"problem": twin(pa) if i % 2 else prob(4), "cfg": small_cfg(rng)},
@@ -445,11 +447,53 @@ def case_nested(spec, out, keys):
         keys.add(f"nested/{spec['a']['problem']['seed']}/{spec['at']}")
 
 
+def _f_with_parameter(x, a):
+    """One objective for a family of problems; the member is chosen by the extra argument."""
+    s_ = np.sqrt(np.abs(a)) if not isinstance(a, (bool, np.bool_)) else np.sqrt(float(a))
+    return float(np.sum((x - 0.3) ** 2) + float(s_) * float(np.sum(np.cos(x))) + (0.25 * float(np.sum(x)) if np.signbit(float(a)) else 0.0))
+
+
+def _g_with_parameter(x, a):
+    s_ = np.sqrt(np.abs(a)) if not isinstance(a, (bool, np.bool_)) else np.sqrt(float(a))
+    return 2 * (x - 0.3) - float(s_) * np.sin(x) + (0.25 if np.signbit(float(a)) else 0.0)
+
+
+def case_args(spec, out):
+    """`args` only forwards: a run given (fun, jac, args=(a,)) is the run given the closures x -> fun(x, a), x -> jac(x, a), whatever the
+    type of a and whatever other members of the family were solved before in the process (values that compare equal - 1.5 and
+    float32(1.5), 1 and 1.0 and True, 0.0 and -0.0 - are different arguments)."""
+    from lbfgsb import minimize_lbfgsb
+
+    rng = np.random.default_rng(spec["seed"])
+    n = int(rng.integers(2, 6))
+    x0 = rng.uniform(-2, 2, n)
+    bounds = np.column_stack([np.full(n, -3.0), np.full(n, 3.0)])
+    vals = [1.5, np.float32(1.5), 2, 2.0, np.float32(2.0), True, 1, 1.0, 0.0, -0.0, np.float64(0.7), np.float32(0.7), np.longdouble(0.7)]
+    order = [vals[int(k)] for k in rng.permutation(len(vals))][: int(rng.integers(4, len(vals) + 1))]
+    kw = dict(maxcor=int(rng.integers(1, 8)), maxiter=int(rng.integers(3, 25)), ftol=0.0, gtol=1e-10)
+    old = np.seterr(all="ignore")
+    try:
+        for a in order:
+            r1 = minimize_lbfgsb(x0=x0.copy(), fun=_f_with_parameter, jac=_g_with_parameter, args=(a,), bounds=bounds.copy(), **kw)
+            r2 = minimize_lbfgsb(x0=x0.copy(), fun=(lambda x, a=a: _f_with_parameter(x, a)), jac=(lambda x, a=a: _g_with_parameter(x, a)), bounds=bounds.copy(), **kw)
+            out.count("runs_with_data_forwarded_through_args_compared_with_closures")
+            bad = probes.diff_states(probes.snap_state(r1), probes.snap_state(r2))
+            if bad:
+                out.violate("result_depends_on_how_the_data_are_passed", f"args: with args=({a!r},) of type {type(a).__name__} (after {[type(v).__name__ for v in order[:order.index(a)]]} "
+                            f"in the same process) fields {bad} differ from the run on the closures x -> fun(x, a)", kind="args")
+                return
+    finally:
+        np.seterr(**old)
+    out.nontrivial = True
+
+
 def run(spec):
     out = Outcome()
     keys = set()
     kind = spec["kind"]
-    if kind == "repeat":
+    if kind == "args":
+        case_args(spec, out)
+    elif kind == "repeat":
         case_repeat(spec, out)
     elif kind == "restart2":
         case_restart2(spec, out)
